@@ -17,7 +17,8 @@ namespace Composite
 
 /-- The Python type of a scalar operand, as far as the code can tell them apart:
 `bool`, `int`, `float`, a `float` subclass such as `numpy.float64`, and anything that is neither
-`float`/`int` nor an observable (`None`, `str`, `complex`, a tensor, …). -/
+`float`/`int` nor an observable (`None`, `str`, `complex`, a tensor, a numpy array, a numpy scalar that is not a
+`float` subclass such as `numpy.int64` / `numpy.float32`, a `Fraction`, …). -/
 inductive Kind where
   | bool | int | float | npfloat | bad
   deriving DecidableEq, Repr, Inhabited
@@ -40,10 +41,12 @@ def negK : Kind → Kind
   | k => k
 
 /-- A scalar standing on the LEFT of an observable reaches the reflected method (`__radd__`, …) after the scalar's
-own method returned `NotImplemented`. `numpy.float64.__add__` does not return `NotImplemented`: it treats the
-observable as an object array element and re-dispatches with the scalar converted to a Python `float`. -/
+own method returned `NotImplemented`. `ObservableBase.__array_ufunc__ = None` makes numpy scalars (and arrays) do
+exactly that, so `numpy.float64(c) + obs` hands the numpy scalar ITSELF to `__radd__`, like `obs + numpy.float64(c)`
+hands it to `__add__`. (Before that fix numpy treated the observable as an object-array element and re-dispatched
+with a converted Python `float`/`int` — accepting `numpy.int64`/`numpy.float32` on the left only, and turning
+`ndarray ∘ obs` into an object array of composites.) -/
 def reflected : Kind → Kind
-  | .npfloat => .float
   | k => k
 end Kind
 
@@ -223,6 +226,13 @@ variable {α : Type} [Add α] [Mul α] [Neg α] [Sub α] [Div α] [Zero α] [One
 /-- `statistics_from_samples` of a built observable: the shared `Stats.fromSamples` of its per-sample values. -/
 def Obs.statisticsFromSamples (o : Obs α) (batch : List (Nat → α)) : Except PyErr (Stats.Stat α) :=
   Stats.fromSamples (o.applyBatch batch)
+
+/-- `statistics(nn_state, num_samples, …)` of a built observable: the shared `Stats.obsStatistics` (chunked draws
+merged by `_update_statistics`) of its per-sample values on every drawn chain state; `leaves st` are the per-chain
+leaf values on the chain states `st`. -/
+def Obs.statistics {σ : Type} (o : Obs α) (env : Stats.Env σ) (leaves : σ → List (Nat → α)) (a : Stats.Args σ) :
+    Except PyErr (Stats.Stat α × List (Stats.SampleCall σ)) :=
+  Stats.obsStatistics env (fun st => o.applyBatch (leaves st)) a
 
 end stats
 end Composite
